@@ -794,6 +794,39 @@ def side_observations(ctx, pq, s, hbar, d, rec, aux):
     return out
 
 
+def check_wigner_marginals(ctx, s, hbar, d, rec, aux, case):
+    """Judged (reduction commutes with the getter; added after a missed seeded change): wigner_function(modes=M) equals the
+    Wigner function of reduced(M) for every single mode and ordered pair, and the one-mode marginal equals the documented
+    closed form 1/(pi sqrt(det sigma)) exp(-(r-mu)^T sigma^-1 (r-mu)) of the reduced xpxp moments. (The full-state call on
+    d >= 2 modes stays an observation: its argument order is ambiguous in the documentation.)"""
+    import itertools
+
+    mu_xp = _arr(rec["xpxp_mean_vector"]).real
+    cov_xp = _arr(rec["xpxp_covariance_matrix"]).real
+    subsets = [(k,) for k in range(d)] + ([tuple(p) for p in itertools.permutations(range(d), 2)][:4] if d >= 2 else [])
+    for M_ in subsets:
+        for pt in aux["wigner_points"]:
+            xs = [float(mu_xp[2 * m] + np.sqrt(hbar) * pt[0] * (0.5 + 0.3 * j)) for j, m in enumerate(M_)]
+            ps = [float(mu_xp[2 * m + 1] + np.sqrt(hbar) * pt[1] * (0.7 - 0.2 * j)) for j, m in enumerate(M_)]
+            ok1, w1 = _try(ctx, case, "wigner-raises", "wigner_function(modes=%s)" % (M_,), lambda: s.wigner_function([xs], [ps], modes=M_))
+            ok2, w2 = _try(ctx, case, "wigner-raises", "reduced(%s).wigner_function()" % (M_,), lambda: s.reduced(M_).wigner_function([xs], [ps]))
+            if not (ok1 and ok2):
+                continue
+            w1 = float(np.asarray(w1).ravel()[0])
+            w2 = float(np.asarray(w2).ravel()[0])
+            if "wigner_marginal_comparisons" not in ctx.c:
+                ctx.c["wigner_marginal_comparisons"] = 0
+            ctx.cmp("wigner_marginal_comparisons", "wigner-marginal-vs-reduced-state", "wigner_function(modes=%s) vs reduced(%s).wigner_function() at hbar=%s d=%d" % (
+                M_, M_, hbar, d), w1, w2, 1e-9 * max(abs(w2), 1e-300), dict(case, modes=list(M_), at_hbar=hbar))
+            if len(M_) == 1:
+                m = M_[0]
+                sg = cov_xp[np.ix_([2 * m, 2 * m + 1], [2 * m, 2 * m + 1])]
+                r = np.array([xs[0] - mu_xp[2 * m], ps[0] - mu_xp[2 * m + 1]])
+                ref = float(np.exp(-r @ np.linalg.solve(sg, r)) / (np.pi * np.sqrt(np.linalg.det(sg))))
+                ctx.cmp("wigner_marginal_comparisons", "wigner-marginal-vs-closed-form", "wigner_function(modes=(%d,)) vs the documented closed form at hbar=%s d=%d" % (
+                    m, hbar, d), w1, ref, 1e-8 * max(abs(ref), 1e-300), dict(case, modes=[m], at_hbar=hbar))
+
+
 def check_purify(ctx, s, hbar, d, rec):
     try:
         p = s.purify()
@@ -887,6 +920,7 @@ def run_case(ctx, pq, case):
         if hbar == REF_HBAR:
             first_rec["ref"] = crec
         wig[hbar] = side_observations(ctx, pq, chosen, hbar, d, crec, aux)
+        check_wigner_marginals(ctx, chosen, hbar, d, crec, aux, c_sub)
         if hi == 1 and d <= 2:
             check_purify(ctx, chosen, hbar, d, crec)
     if prog_exc:
